@@ -30,6 +30,8 @@ StmtUses(s) ==
   CASE s.k = "assign" -> {s.t.obj} \cup ExprNames(s.e) \cup PathNames(s.t.path)
     [] s.k = "bind" -> ExprNames(s.e)
     [] s.k = "local" -> {s.n} \cup ExprNames(s.init)
+    [] s.k = "match" -> ExprNames(s.e) \cup StmtsUses(s.default, 1) \cup UNION {StmtsUses(s.cases[i].body, 1) : i \in 1..Len(s.cases)}
+    [] s.k = "forchain" -> (IF s.mode = "bind" THEN {} ELSE {s.t.obj}) \cup ExprsNames(s.conds, 1) \cup ExprsNames(s.bes, 1) \cup (IF s.haselse = 1 THEN ExprNames(s.elseval) ELSE {})
     [] s.k = "if" -> (IF s.c.k \in {"true", "false"} THEN {} ELSE ExprNames(s.c)) \cup StmtsUses(s.th, 1) \cup StmtsUses(s.el, 1)
     [] s.k = "while" -> (IF s.c.k \in {"true", "false"} THEN {} ELSE ExprNames(s.c)) \cup StmtsUses(s.body, 1)
     [] s.k = "await" -> IF s.c.k \in {"true", "false"} THEN {} ELSE ExprNames(s.c)
@@ -72,6 +74,24 @@ TmpStmt(s, objs, defined, bound) ==
              b == TmpStmts(s.el, 1, objs, defined, a.bound)
          IN [def |-> a.def \cap b.def, bound |-> b.bound, ok |-> TmpUse(CondNames(s.c), objs, defined) /\ a.ok /\ b.ok]
     [] s.k = "local" -> [def |-> defined, bound |-> bound, ok |-> TmpUse(ExprNames(s.init), objs, defined)]
+    [] s.k = "match" ->
+         \* "a value computed in only some branches (of if, match or a for-break chain) ... used afterwards" is rejected:
+         \* defined after the match = defined in every case AND in the default (a missing default is an empty branch)
+         LET RECURSIVE Arms(_, _, _)
+             Arms(i, b, acc) == IF i > Len(s.cases) THEN [bound |-> b, rs |-> acc]
+                                ELSE LET r == TmpStmts(s.cases[i].body, 1, objs, defined, b) IN Arms(i + 1, r.bound, Append(acc, r))
+             a == Arms(1, bound, << >>)
+             d == TmpStmts(s.default, 1, objs, defined, a.bound)
+             all == Append(a.rs, d)
+         IN [def |-> {n \in d.def : \A i \in 1..Len(all) : n \in all[i].def}, bound |-> d.bound,
+             ok |-> TmpUse(ExprNames(s.e), objs, defined) /\ \A i \in 1..Len(all) : all[i].ok]
+    [] s.k = "forchain" ->
+         \* every iteration of the unrolled loop rebinds the Python name to a fresh intermediate; after the chain the name refers
+         \* to the one of the LAST branch traced (the else block, or the last iteration), which is written on that branch only
+         LET uses == ExprsNames(s.conds, 1) \cup ExprsNames(s.bes, 1) \cup (IF s.haselse = 1 THEN ExprNames(s.elseval) ELSE {})
+         IN IF s.mode = "bind"
+            THEN [def |-> defined \ {s.t.obj}, bound |-> bound \cup {s.t.obj}, ok |-> TmpUse(uses, objs, defined) /\ s.t.obj \notin objs]
+            ELSE [def |-> defined, bound |-> bound, ok |-> TmpUse(uses, objs, defined)]
     [] s.k = "await" -> [def |-> {}, bound |-> bound, ok |-> TRUE]   \* the condition is evaluated in the polling state
     [] s.k = "waitfor" -> [def |-> {}, bound |-> bound, ok |-> TmpUse(IF s.n.k = "int" THEN {} ELSE ExprNames(s.n), objs, defined)]
     [] s.k = "while" ->
